@@ -9,6 +9,15 @@ model (Conc/Interleave.v) uses:
   counter_poll_fires      the comparison of the two polls in ac_search_loop
                           (`HEARTBEAT_COUNTER.load(..) >= self.deadline`)
   heartbeat_period_secs   `thread::sleep(Duration::from_secs(N))` of the heartbeat loop
+  shared_writes           EVERY call site (all of lib/src except the cfg(yara_x_verif) hook files
+                          verif_*.rs and the runtime abstraction lib/src/wasm/runtime/, which only
+                          defines/delegates these methods) of `increment_epoch`, of a write to
+                          HEARTBEAT_COUNTER (fetch_*/store/swap/compare_exchange*) and of
+                          `set_epoch_deadline`, with what it writes (engine epoch, counter, the
+                          caller's own store, something else) and where (inside the heartbeat
+                          thread's loop, or scanner-side code); `clock_single_writer` is computed
+                          from the table IN COQ: engine-wide writes only in the heartbeat loop,
+                          scanner-side code only writes its own store's deadline.
 checked shapes (TranslateError when absent):
   * `self.deadline = HEARTBEAT_COUNTER.load(Ordering::Relaxed) + timeout_secs;`
     and `wasm_store.set_epoch_deadline(timeout_secs);` (both relative to the
@@ -71,9 +80,57 @@ def main():
     need(re.search(r"ENGINE\.get_or_init\(\|\|\s*Engine::new\(&CONFIG\)\.unwrap\(\)\)", ge), "get_engine: ENGINE.get_or_init(|| Engine::new(&CONFIG).unwrap())")
     need(re.search(r"config\.epoch_interruption\(true\)\s*;", wasm), "config.epoch_interruption(true);")
 
+    # ---- every write to the shared clock / to a store's epoch deadline
+    import os, glob
+    lib = os.path.join(REPO, "lib", "src")
+    hb_file = os.path.join(lib, "scanner", "context.rs")
+    rows = []
+    pat = re.compile(r"(?<![A-Za-z_0-9])(increment_epoch|set_epoch_deadline)\s*\(|HEARTBEAT_COUNTER\s*\.\s*(fetch_[a-z_]+|store|swap|compare_exchange[a-z_]*)\s*\(")
+    for path in sorted(glob.glob(os.path.join(lib, "**", "*.rs"), recursive=True)):
+        rel = os.path.relpath(path, lib)
+        if os.path.basename(rel).startswith("verif_") or rel.startswith(os.path.join("wasm", "runtime") + os.sep):
+            continue
+        try:
+            raw = open(path, encoding="utf-8").read()
+        except OSError as e:
+            raise TranslateError(f"cannot read {rel}: {e}")
+        if not re.search(r"increment_epoch|set_epoch_deadline|HEARTBEAT_COUNTER", raw):
+            continue
+        txt = strip_comments(raw)
+        # span of the heartbeat loop in this file (only scanner/context.rs has one)
+        hb_span = None
+        hm2 = re.search(r"INIT_HEARTBEAT\.call_once\(\|\|\s*\{\s*thread::spawn\(\|\|\s*\{\s*loop\s*\{", txt)
+        if hm2:
+            hb_span = (hm2.end() - 1, match_brace(txt, hm2.end() - 1))
+        for m in pat.finditer(txt):
+            # skip definitions `fn increment_epoch(` / `fn set_epoch_deadline(`
+            if re.search(r"fn\s+$", txt[max(0, m.start() - 8):m.start()]):
+                continue
+            fns = re.findall(r"\bfn\s+([A-Za-z_0-9]+)", txt[:m.start()])
+            fn = fns[-1] if fns else "?"
+            where = "HeartbeatLoop" if hb_span and hb_span[0] < m.start() < hb_span[1] else "ScannerSide"
+            if m.group(1) == "increment_epoch":
+                target = "EngineEpoch"
+            elif m.group(1) == "set_epoch_deadline":
+                # receiver expression: own store = the ScanContext's store / the Caller's store
+                line_start = txt.rfind(";", 0, m.start()) + 1
+                recv = re.sub(r"\s+", "", txt[max(line_start, txt.rfind("{", 0, m.start()) + 1):m.start()])
+                own = recv in ("wasm_store.", "caller.as_context_mut().", "self.wasm_store_mut().", "store.")
+                if recv == "wasm_store.":
+                    own = re.search(r"let\s+wasm_store\s*=\s*self\.wasm_store_mut\(\)\s*;", txt[:m.start()]) is not None
+                target = "OwnStoreDeadline" if own else "OtherStoreDeadline"
+            else:
+                target = "HeartbeatCounter"
+            rows.append((f"{rel}:{fn}", target, where))
+    need(any(t == "EngineEpoch" and w == "HeartbeatLoop" for _, t, w in rows), "the heartbeat loop increments the engine epoch")
+    need(any(t == "HeartbeatCounter" and w == "HeartbeatLoop" for _, t, w in rows), "the heartbeat loop increments HEARTBEAT_COUNTER")
+    need(any(t == "OwnStoreDeadline" for _, t, w in rows), "a scanner sets its own store's epoch deadline")
+    table = ";\n   ".join(f'("{n}", {t}, {w})' for n, t, w in rows)
+
     text = f"""(* GENERATED by translate/gen_conc.py from lib/src/scanner/context.rs, lib/src/scanner/mod.rs
    and lib/src/wasm/mod.rs -- do not edit; regenerated on every check. *)
-From Coq Require Import NArith.
+From Coq Require Import NArith List String Bool.
+Import ListNotations.
 Local Open Scope N_scope.
 
 (* const DEFAULT_SCAN_TIMEOUT: u64 *)
@@ -93,6 +150,24 @@ Definition epoch_poll_fires (epoch deadline : N) : bool := N.leb deadline epoch.
 
 (* thread::sleep(Duration::from_secs(N)) of the heartbeat loop *)
 Definition heartbeat_period_secs : N := {period}.
+
+(* every write to the engine epoch / HEARTBEAT_COUNTER / a store's epoch deadline in
+   lib/src (hook files and the runtime abstraction layer excluded): "file:function",
+   what is written, where *)
+Inductive wtarget := EngineEpoch | HeartbeatCounter | OwnStoreDeadline | OtherStoreDeadline.
+Inductive wwhere := HeartbeatLoop | ScannerSide.
+Definition shared_writes : list (string * wtarget * wwhere) :=
+  [{table}]%string.
+
+(* engine-wide writes occur only in the heartbeat thread's loop; scanner-side code
+   writes only the epoch deadline of its own store *)
+Definition write_ok (w : string * wtarget * wwhere) : bool :=
+  match w with
+  | (_, EngineEpoch, HeartbeatLoop) | (_, HeartbeatCounter, HeartbeatLoop) => true
+  | (_, OwnStoreDeadline, ScannerSide) => true
+  | _ => false
+  end.
+Definition clock_single_writer : bool := forallb write_ok shared_writes.
 """
     write_if_changed("ConcGen.v", text)
 
